@@ -358,8 +358,29 @@ func PopEDNS0(m *Msg) Resource {
 	return nil
 }
 
+// RemoveEDNS0 removes every OPT record from m. An OPT record belongs to the
+// additional section, but a misplaced one (or a second one) must not stay
+// in the message either.
 func RemoveEDNS0(m *Msg) {
-	if rr := PopEDNS0(m); rr != nil {
-		ReleaseResource(rr)
+	m.Answers = removeOpt(m.Answers)
+	m.Authorities = removeOpt(m.Authorities)
+	m.Additionals = removeOpt(m.Additionals)
+}
+
+// removeOpt removes the OPT records from rs in place. It keeps the order of
+// the other records.
+func removeOpt(rs []Resource) []Resource {
+	n := 0
+	for _, r := range rs {
+		if r.Hdr().Type == TypeOPT {
+			ReleaseResource(r)
+			continue
+		}
+		rs[n] = r
+		n++
 	}
+	for i := n; i < len(rs); i++ {
+		rs[i] = nil
+	}
+	return rs[:n]
 }
